@@ -237,6 +237,12 @@ pub struct Exec<'a> {
     pub reopen_opts: Option<KsOpts>,
     /// filter model (C18): per (ks,key): true once observed in filtered form
     pub filter_sticky: BTreeMap<(KsIdx, Vec<u8>), Option<Vec<u8>>>,
+    /// state when the first transaction / helper op started (C07)
+    pub tx_initial: Option<State>,
+    /// internal ids of deleted keyspace incarnations (C12)
+    pub deleted_ids: Vec<u64>,
+    /// seqno counter observed right before the last close (C11)
+    pub seqno_before_close: Option<u64>,
 }
 
 macro_rules! viol {
@@ -263,6 +269,9 @@ impl<'a> Exec<'a> {
             created_rows: BTreeMap::new(),
             reopen_opts: None,
             filter_sticky: BTreeMap::new(),
+            tx_initial: None,
+            deleted_ids: vec![],
+            seqno_before_close: None,
         }
     }
 
@@ -294,6 +303,9 @@ impl<'a> Exec<'a> {
             drop(t);
         }
         crate::hooks::set_seq_db(None);
+        if let Some(i) = &self.inst {
+            self.seqno_before_close = Some(i.db.seqno());
+        }
         self.inst = None;
     }
 
@@ -635,6 +647,9 @@ impl<'a> Exec<'a> {
                 } else {
                     return Ok(StepInfo::default());
                 };
+                if self.tx_initial.is_none() {
+                    self.tx_initial = Some(self.model.clone());
+                }
                 self.txlog.push(TxRecord {
                     begin: self.step_no,
                     end: usize::MAX,
@@ -1025,6 +1040,7 @@ impl<'a> Exec<'a> {
                 // the harness drops its own iterators on it to keep handle accounting simple
                 match inst!().db.delete_keyspace(k.clone()) {
                     Ok(()) => {
+                        self.deleted_ids.push(k.id());
                         let i = self.inst.as_mut().unwrap();
                         i.drop_ks_handle(*ks as usize);
                         i.stale[*ks as usize].push(k);
@@ -1107,6 +1123,9 @@ impl<'a> Exec<'a> {
     }
 
     fn record_single_tx(&mut self, op: &Op) {
+        if self.tx_initial.is_none() {
+            self.tx_initial = Some(self.model.clone());
+        }
         // helper single-ops are one-op transactions for the serialisability checker
         let top = match op {
             Op::TxKsInsert { ks, key, val } => TxOp::Insert { ks: *ks, key: *key, val: val.clone() },
@@ -1266,6 +1285,7 @@ impl<'a> Exec<'a> {
             v
         })?;
         self.check_names(clause)?;
+        self.check_after_reopen()?;
         let cfg = self.cfg;
         let existing: Vec<KsIdx> = self.model.ks.keys().copied().collect();
         for ks in existing {
@@ -1282,6 +1302,37 @@ impl<'a> Exec<'a> {
             v.clause = clause.to_string();
             v
         })
+    }
+
+    /// C11 / C12 checks that only make sense right after an open
+    pub fn check_after_reopen(&mut self) -> Result<(), Violation> {
+        use fjall::AbstractTree;
+        let inst = self.inst.as_ref().unwrap();
+        let next = inst.db.seqno();
+        let visible = inst.db.visible_seqno();
+        let keyspaces = inst.db.supervisor.keyspaces.read().unwrap();
+        for k in keyspaces.values() {
+            if let Some(hi) = k.tree.get_highest_seqno() {
+                if next <= hi {
+                    viol!("seqno-after-reopen", "after reopen the seqno counter is {next} but keyspace {:?} holds seqno {hi}", k.name());
+                }
+            }
+        }
+        drop(keyspaces);
+        if visible > next {
+            viol!("seqno-after-reopen", "after reopen visible seqno {visible} exceeds the seqno counter {next}");
+        }
+        self.stats.inc("reopen_seqno_checks");
+        for id in &self.deleted_ids {
+            let p = self.dir.join("keyspaces").join(id.to_string());
+            // an id may legitimately be reused by a later keyspace; then the folder belongs to a
+            // live keyspace and content checks (not this one) decide
+            let reused = inst.db.supervisor.keyspaces.read().unwrap().values().any(|k| k.id() == *id);
+            if !reused && crate::interpose::bypass(|| p.exists()) {
+                viol!("keyspace-deleted", "folder keyspaces/{id} of a deleted keyspace still exists after reopen");
+            }
+        }
+        Ok(())
     }
 
     pub fn check_option_rows(&mut self, ks: KsIdx) -> Result<(), Violation> {
